@@ -34,9 +34,10 @@ import warnings
 
 import core  # noqa: F401
 import isoutil
+import sparqlgen as sg
 import rdflib.plugins.sparql as SPARQL_MOD
 from rdflib import BNode, ConjunctiveGraph, Dataset, Graph, Literal, URIRef, Variable
-from rdflib.plugins.sparql import prepareUpdate
+from rdflib.plugins.sparql import prepareQuery, prepareUpdate
 
 warnings.filterwarnings("ignore", category=DeprecationWarning)
 
@@ -46,17 +47,24 @@ AUDIT = "RV/C10/Audit.lean"
 DRIVER = "drv_c10"
 CASES = {"quick": 2600, "thorough": 60000, "search": 20000}
 RULE = ("random update requests (1-4 operations: INSERT/DELETE DATA, DELETE WHERE, DELETE/INSERT..WHERE with WITH / USING / "
-        "USING NAMED / GRAPH templates and patterns, CLEAR, DROP, ADD, MOVE, COPY) over datasets with 0-3 named graphs "
+        "USING NAMED / GRAPH templates and patterns — WHERE clauses: BGP blocks with a FILTER / UNION / sub-select, or (a fifth of "
+        "the requests) full-algebra patterns with OPTIONAL, MINUS, UNION, FILTER, BIND, VALUES, GRAPH, sub-select, EXISTS — "
+        "CLEAR, DROP, ADD, MOVE, COPY) over datasets with 0-3 named graphs "
         "(one possibly registered-but-empty, one missing), through Graph / ConjunctiveGraph / Dataset with the union "
         "switch on and off; non-trivial = the request changed the dataset or a WHERE had at least one solution; "
         "distinct = distinct (api, union, init, request)")
 ASSUMPTIONS = ["the Memory store behind Graph/ConjunctiveGraph/Dataset behaves as a set of quads (C01/C02)",
-               "WHERE clauses are limited to basic graph patterns in the default graph and in GRAPH blocks plus one "
-               "(in)equality FILTER against an IRI; richer patterns are C04's subject",
+               "WHERE clauses are basic graph patterns in the default graph and in GRAPH blocks plus one (in)equality FILTER "
+               "against an IRI (own matcher), or patterns of the full algebra evaluated by the C04 model of evaluate.py; on "
+               "patterns outside C04's Alg.safe (its known findings) and on patterns whose solutions depend on empty graphs "
+               "being graphs of the dataset the specification oracle abstains (model and implementation are still compared)",
+               "literals in full-algebra requests are the typed ones of LIT (= litTable of Model.lean)",
                "BNode() returns identifiers distinct from each other and from every identifier already present",
                "SPARQL_LOAD_GRAPHS is False (no network); LOAD and CREATE are outside the property's operation list"]
 TRUSTED = ["harness/c10.py generators, request printer, canonical numbering of minted blank nodes (component-wise exact)",
-           "lean/RV/C10/Drive.lean line protocol", "harness/isoutil.py (exact isomorphism decision)"]
+           "lean/RV/C10/Drive.lean line protocol", "harness/isoutil.py (exact isomorphism decision)",
+           "harness/sparqlgen.py (pattern generator, §18 reference evaluator, Python mirror of RV/C04/Safe.lean)",
+           "harness/c10.py enc_alg (encoding of rdflib's translated WHERE tree for the driver)", "lean/RV/C04 (model + proofs of C04)"]
 
 # ------------------------------------------------------------------ vocabulary
 
@@ -67,8 +75,13 @@ for _i in range(1, 10):
 TERM[7] = URIRef(f"{E}doc#x")        # spelled <#x> under BASE <http://e/doc>
 TERM[8] = URIRef(f"{E}sub/z")        # spelled <z> under BASE <http://e/sub/doc>, <../n1> goes the other way
 TERM.update({20: Literal(""), 21: Literal(0), 22: Literal(False), 23: Literal("x", lang="en"), 24: Literal(1)})
+# literals only used by requests whose WHERE clause is a full-algebra pattern ("walg", see below): with 20, 21, 22, 24 they
+# are the literals the C04 model has a type for (plain strings, integers, booleans); LIT = what Model.lean's `litTable` says
+TERM.update({25: Literal(2), 26: Literal("a"), 27: Literal(True)})
+LIT = {20: ("s", ""), 21: ("n", 0), 22: ("t", False), 24: ("n", 1), 25: ("n", 2), 26: ("s", "a"), 27: ("t", True)}
+LIT_REV = {v: k for k, v in LIT.items()}
 TERM.update({30: BNode("b30"), 31: BNode("b31")})
-for _i in range(40, 47):
+for _i in range(40, 50):
     TERM[_i] = Variable(f"v{_i}")
 for _i in range(50, 53):
     TERM[_i] = BNode(f"t{_i}")
@@ -368,6 +381,9 @@ def op_text(op, sp=ABS):
             parts.append(f"USING {sp.t(g)}")
         for g in op.get("named", []):
             parts.append(f"USING NAMED {sp.t(g)}")
+        if op.get("walg"):
+            parts.append(f"WHERE {walg_group_text(op['walg'])}")
+            return " ".join(parts)
         w = _block(op["where"], False, sp)
         wm = op.get("wmode")
         if wm and wm[0] == "union":
@@ -397,6 +413,310 @@ def stepwise_texts(case):
             seen.append(d)
         out.append(("\n".join(seen) + "\n" if seen else "") + body)
     return out
+
+
+# ------------------------------------------------------------------ WHERE clauses of the full algebra ("walg")
+#
+# op["walg"] = the group graph pattern of a DELETE/INSERT … WHERE as a syntax tree (grammar of harness/sparqlgen.py):
+#   group ::= ["group", [elt…]]     elt ::= ["tri", [[s,p,o]…]] | ["opt", group] | ["minus", group] | ["union", [group…]]
+#           | ["graph", pos, group] | ["values", [v…], [[term|None…]…]] | ["bind", expr, v] | ["filter", expr]
+#           | ["subsel", None|[v…], group]
+#   expr  ::= ["var", v] | ["const", t] | ["cmp", op, e, e] | ["and", e, e] | ["or", e, e] | ["not", e] | ["bound", v]
+#           | ["exists", group] | ["nexists", group]
+# with THIS module's numbers in every position (40…49 variables, anything else a term).  Three independent readers:
+#   * the text printer below -> rdflib parses, translates and evaluates it (the implementation);
+#   * the oracle: sparqlgen.translate_group / eval_alg, a plain bottom-up SPARQL 1.1 §18 evaluator (no rdflib);
+#   * the model: rdflib's OWN translated tree of the update (`prepareUpdate(text).algebra[k].where`, with its lazy /
+#     _vars annotations) is encoded and handed to the Lean driver, which runs the C04 model of evaluate.py on it.
+
+
+def _map_expr(e, fv, ft, fg):
+    k = e[0]
+    if k in ("var", "bound"):
+        return [k, fv(e[1])]
+    if k == "const":
+        return ["const", ft(e[1])]
+    if k == "cmp":
+        return ["cmp", e[1], _map_expr(e[2], fv, ft, fg), _map_expr(e[3], fv, ft, fg)]
+    if k in ("and", "or"):
+        return [k, _map_expr(e[1], fv, ft, fg), _map_expr(e[2], fv, ft, fg)]
+    if k == "not":
+        return ["not", _map_expr(e[1], fv, ft, fg)]
+    if k in ("exists", "nexists"):
+        return [k, fg(e[1])]
+    raise ValueError(e)
+
+
+def _map_group(g, fp, fv, ft):
+    def rec(h):
+        return _map_group(h, fp, fv, ft)
+
+    def ex(e):
+        return _map_expr(e, fv, ft, rec)
+    out = []
+    for x in g[1]:
+        k = x[0]
+        if k == "tri":
+            out.append(["tri", [[fp(q) for q in tp] for tp in x[1]]])
+        elif k in ("opt", "minus"):
+            out.append([k, rec(x[1])])
+        elif k == "union":
+            out.append(["union", [rec(h) for h in x[1]]])
+        elif k == "graph":
+            out.append(["graph", fp(x[1]), rec(x[2])])
+        elif k == "values":
+            out.append(["values", [fv(v) for v in x[1]], [[None if c is None else ft(c) for c in r] for r in x[2]]])
+        elif k == "bind":
+            out.append(["bind", ex(x[1]), fv(x[2])])
+        elif k == "filter":
+            out.append(["filter", ex(x[1])])
+        elif k == "subsel":
+            out.append(["subsel", None if x[1] is None else [fv(v) for v in x[1]], rec(x[2])])
+        else:
+            raise ValueError(x)
+    return ["group", out]
+
+
+def sg_term(n):
+    """this module's term number -> sparqlgen term tuple"""
+    k = kind(n)
+    if k == "i":
+        return ("i", n)
+    if k == "b":
+        return ("b", n)
+    return LIT[n]                    # KeyError for a literal the algebra has no type for (23): never generated with walg
+
+
+def c10_term(t):
+    t = sg.T(t)
+    return t[1] if t[0] in "ib" else LIT_REV[t]
+
+
+def walg_to_sg(g):
+    return _map_group(g, lambda n: ["v", n] if kind(n) == "v" else list(sg_term(n)), lambda v: v, lambda n: list(sg_term(n)))
+
+
+def walg_from_sg(g, off=40):
+    """sparqlgen tree -> this module's numbers; variables k -> off + k (off = 0: inverse of walg_to_sg)"""
+    return _map_group(g, lambda q: off + q[1] if q[0] == "v" else c10_term(q), lambda v: off + v, c10_term)
+
+
+def walg_expr_text(e):
+    k = e[0]
+    if k == "var":
+        return n3(e[1])
+    if k == "const":
+        return n3(e[1])
+    if k == "cmp":
+        return f"({walg_expr_text(e[2])} {sg.OPTXT[e[1]]} {walg_expr_text(e[3])})"
+    if k in ("and", "or"):
+        return f"({walg_expr_text(e[1])} {'&&' if k == 'and' else '||'} {walg_expr_text(e[2])})"
+    if k == "not":
+        return f"(!{walg_expr_text(e[1])})"
+    if k == "bound":
+        return f"bound({n3(e[1])})"
+    if k in ("exists", "nexists"):
+        return ("EXISTS " if k == "exists" else "NOT EXISTS ") + walg_group_text(e[1])
+    raise ValueError(e)
+
+
+def walg_group_text(g):
+    out = []
+    for x in g[1]:
+        k = x[0]
+        if k == "tri":
+            out.append(" ".join(f"{n3(a)} {n3(b)} {n3(c)} ." for a, b, c in x[1]))
+        elif k == "opt":
+            out.append("OPTIONAL " + walg_group_text(x[1]))
+        elif k == "minus":
+            out.append("MINUS " + walg_group_text(x[1]))
+        elif k == "union":
+            out.append(" UNION ".join(walg_group_text(h) for h in x[1]))
+        elif k == "graph":
+            out.append(f"GRAPH {n3(x[1])} " + walg_group_text(x[2]))
+        elif k == "values":
+            rows = " ".join("(" + " ".join("UNDEF" if c is None else n3(c) for c in r) + ")" for r in x[2])
+            out.append(f"VALUES ({' '.join(n3(v) for v in x[1])}) {{ {rows} }}")
+        elif k == "bind":
+            out.append(f"BIND({walg_expr_text(x[1])} AS {n3(x[2])})")
+        elif k == "filter":
+            out.append(f"FILTER({walg_expr_text(x[1])})")
+        elif k == "subsel":
+            proj = "*" if x[1] is None else " ".join(n3(v) for v in x[1])
+            out.append("{ SELECT " + proj + " WHERE " + walg_group_text(x[2]) + " }")
+        else:
+            raise ValueError(x)
+    return "{ " + " ".join(out) + " }"
+
+
+def walg_features(g, out=None):
+    out = out if out is not None else set()
+
+    def ex(e):
+        if e[0] in ("exists", "nexists"):
+            out.add("exists")
+            walg_features(e[1], out)
+        elif e[0] == "cmp":
+            ex(e[2]); ex(e[3])
+        elif e[0] in ("and", "or"):
+            ex(e[1]); ex(e[2])
+        elif e[0] == "not":
+            ex(e[1])
+    for x in g[1]:
+        if x[0] != "tri":
+            out.add(x[0])
+        if x[0] in ("opt", "minus"):
+            walg_features(x[1], out)
+        elif x[0] == "union":
+            for h in x[1]:
+                walg_features(h, out)
+        elif x[0] in ("graph", "subsel"):
+            walg_features(x[2], out)
+        elif x[0] in ("bind", "filter"):
+            ex(x[1])
+    return out
+
+
+# ---- rdflib's translated tree -> tokens for the Lean driver (grammar of Drive.lean; terms = this module's numbers)
+
+
+def _enc_term(x):
+    if x in REV:
+        return str(REV[x])
+    raise ValueError(f"term {x!r} outside the vocabulary")
+
+
+def _enc_pos(x):
+    if isinstance(x, Variable):
+        return "?" + str(x)[1:]
+    if isinstance(x, BNode):
+        raise ValueError("blank node in a pattern")
+    return _enc_term(x)
+
+
+def _enc_vars(vs):
+    return "( vars" + "".join(f" {k}" for k in sorted({int(str(v)[1:]) for v in (vs or []) if isinstance(v, Variable)})) + " )"
+
+
+def _enc_ovars(vs):
+    return "none" if vs is None else _enc_vars(vs)
+
+
+_RELOP = {"=": "eq", "!=": "ne", "<": "lt", ">": "gt", "<=": "le", ">=": "ge"}
+
+
+def _enc_expr(e):
+    from rdflib.plugins.sparql.parserutils import CompValue
+    if isinstance(e, Variable):
+        return f"( var {str(e)[1:]} )"
+    if isinstance(e, CompValue):
+        n = e.name
+        raw = lambda k: dict.get(e, k)  # noqa: E731   (CompValue.__getitem__ would evaluate)
+        if n == "TrueFilter":
+            return "( const 27 )"
+        if n == "RelationalExpression":
+            return f"( cmp {_RELOP[raw('op')]} {_enc_expr(raw('expr'))} {_enc_expr(raw('other'))} )"
+        if n in ("ConditionalAndExpression", "ConditionalOrExpression"):
+            k = "and" if n == "ConditionalAndExpression" else "or"
+            acc = _enc_expr(raw("expr"))
+            for o in raw("other"):
+                acc = f"( {k} {acc} {_enc_expr(o)} )"
+            return acc
+        if n == "UnaryNot":
+            return f"( not {_enc_expr(raw('expr'))} )"
+        if n == "Builtin_BOUND":
+            return f"( bound {str(raw('arg'))[1:]} )"
+        if n in ("Builtin_EXISTS", "Builtin_NOTEXISTS"):
+            return f"( {'exists' if n == 'Builtin_EXISTS' else 'nexists'} {enc_alg(e.graph)} )"
+        raise ValueError(f"expression {n} outside the modelled fragment")
+    return f"( const {_enc_term(e)} )"
+
+
+def enc_alg(p):
+    """a node of rdflib's translated algebra, annotations included exactly where evaluate.py reads them"""
+    n = p.name
+    if n == "BGP":
+        return "( bgp" + "".join(f" {_enc_pos(a)} {_enc_pos(b)} {_enc_pos(c)}" for a, b, c in p.triples) + " )"
+    if n == "Join":
+        return f"( join {1 if p.lazy else 0} {enc_alg(p.p1)} {enc_alg(p.p2)} )"
+    if n == "LeftJoin":
+        return (f"( leftjoin {enc_alg(p.p1)} {enc_alg(p.p2)} {_enc_expr(dict.get(p, 'expr'))} "
+                f"{_enc_ovars(p.p1._vars)} {_enc_ovars(p.p2._vars)} )")
+    if n == "Filter":
+        return f"( filter {_enc_expr(dict.get(p, 'expr'))} {enc_alg(p.p)} {_enc_vars(p._vars)} {1 if p.no_isolated_scope else 0} )"
+    if n == "Union":
+        return f"( union {enc_alg(p.p1)} {enc_alg(p.p2)} )"
+    if n == "Minus":
+        return f"( minus {enc_alg(p.p1)} {enc_alg(p.p2)} {_enc_ovars(p.p1._vars)} {_enc_ovars(p.p2._vars)} )"
+    if n == "Extend":
+        return f"( extend {enc_alg(p.p)} {str(p.var)[1:]} {_enc_expr(dict.get(p, 'expr'))} {_enc_vars(p._vars)} )"
+    if n == "Graph":
+        return f"( graph {_enc_pos(p.term)} {enc_alg(p.p)} )"
+    if n == "ToMultiSet":
+        inner = p.p
+        if isinstance(inner, list):
+            raise ValueError("empty VALUES block")
+        if inner.name == "values":
+            vs = []
+            for r in inner.res:
+                for k in r:
+                    if int(str(k)[1:]) not in vs:
+                        vs.append(int(str(k)[1:]))
+            rows = []
+            for r in inner.res:
+                cells = []
+                for v in vs:
+                    c = r.get(Variable(f"v{v}"), "UNDEF")
+                    cells.append("U" if isinstance(c, str) and not isinstance(c, (URIRef, Literal, BNode)) else _enc_term(c))
+                rows.append("( row " + " ".join(cells) + " )")
+            return "( values ( vars" + "".join(f" {v}" for v in vs) + " )" + "".join(" " + x for x in rows) + " )"
+        if inner.name == "Project":
+            return f"( project {enc_alg(inner.p)} {_enc_vars(inner.PV)} )"
+        raise ValueError(f"ToMultiSet({inner.name})")
+    raise ValueError(f"algebra node {n} outside the modelled fragment")
+
+
+_TREE = {}
+
+
+def update_where_tree(wtext):
+    """encoded `algebra[0].where` of `INSERT { } WHERE wtext` as translateUpdate / translateUpdate1 build it"""
+    if wtext not in _TREE:
+        if len(_TREE) > 5000:
+            _TREE.clear()
+        try:
+            _TREE[wtext] = enc_alg(prepareUpdate("INSERT { } WHERE " + wtext).algebra[0].where)
+        except Exception as e:  # noqa: BLE001
+            _TREE[wtext] = f"( untranslatable {type(e).__name__} )"
+    return _TREE[wtext]
+
+
+def walg_problems(walg):
+    """why C04's `Alg.safe` fails for this pattern (empty = safe), decided on the tree rdflib builds for the same pattern
+    in a QUERY (translateQuery — a code path that does not go through translateUpdate1)"""
+    try:
+        q = prepareQuery("SELECT * WHERE " + walg_group_text(walg))
+        pat = sg.parse_sx(enc_alg(q.algebra.p.p))
+    except Exception as e:  # noqa: BLE001
+        return {"outside:" + type(e).__name__}
+    return sg.alg_problems(pat)
+
+
+def spec_where_alg(walg, dflt, named):
+    """solutions of a full-algebra WHERE clause over the query dataset, by sparqlgen's §18 evaluator.
+    -> (bag, ambiguous): ambiguous = the bag depends on whether a graph WITHOUT triples counts as a graph of the dataset
+    (the specification lets a store record empty graphs or not)"""
+    A = sg.translate_group(walg_to_sg(walg))
+
+    def run(nm):
+        ds = {"default": [tuple(sg_term(x) for x in t) for t in sorted(dflt)],
+              "named": [[sg_term(g), [tuple(sg_term(x) for x in t) for t in sorted(ts)]] for g, ts in sorted(nm.items())],
+              "union": False}
+        return [{k: c10_term(v) for k, v in m.items()} for m in sg.eval_alg(ds, A)]
+    full = run(named)
+    lean = run({g: ts for g, ts in named.items() if ts})
+    key = lambda bag: sorted(tuple(sorted(m.items())) for m in bag)  # noqa: E731
+    return full, key(full) != key(lean)
 
 
 # ------------------------------------------------------------------ the property's own oracle (SPARQL 1.1 Update)
@@ -515,7 +835,8 @@ def _needs_dataset(op):
     if k == "modify":
         return bool(op.get("with") or op.get("using") or op.get("named")
                     or any(q[3] != 0 for part in ("del", "ins", "where") for q in (op.get(part) or []))
-                    or bool(op.get("wmode") and op["wmode"][0] == "union" and any(q[3] != 0 for q in op["wmode"][1])))
+                    or bool(op.get("wmode") and op["wmode"][0] == "union" and any(q[3] != 0 for q in op["wmode"][1]))
+                    or bool(op.get("walg") and "graph" in walg_features(op["walg"])))
     if k in ("clear", "drop"):
         return op["t"] not in ("DEFAULT", "ALL", "NAMED")
     return op["src"] != 0 or op["dst"] != 0
@@ -558,7 +879,13 @@ def spec_op(op, G, eff_union, single_graph, fresh, info=None):
                 dflt = set().union(*G.values()) if G else set()
             else:
                 dflt = graph(0)
-        sols = spec_where(op["where"], op.get("filter"), dflt, nmd, op.get("wmode"))
+        if op.get("walg"):
+            sols, ambiguous = spec_where_alg(op["walg"], dflt, nmd)
+            info["where_algebra"] = info.get("where_algebra", 0) + 1
+            if ambiguous:
+                info["abstain"] = 1          # depends on empty graphs being graphs of the dataset: unspecified
+        else:
+            sols = spec_where(op["where"], op.get("filter"), dflt, nmd, op.get("wmode"))
         if len(sols) > 150:
             raise TooBig()
         keys = [tuple(sorted(m.items())) for m in sols]
@@ -847,7 +1174,24 @@ def run_impl(case):
 
     # equal canonical numberings exhibit a renaming of the minted nodes (sound); only when they differ is the
     # exact decision procedure asked (complete), so that a violation never rests on the numbering heuristic
-    same = quads == canon_int(want)
+    # `abstain`: a full-algebra WHERE whose solutions depend on whether a graph without triples is a graph of the dataset
+    # (unspecified: a store may or may not record empty graphs) — correspondence only, no verdict on the state
+    abstain = bool(info.pop("abstain", 0))
+    for o in case["ops"]:
+        if o["k"] == "modify" and o.get("walg"):
+            probs = walg_problems(o["walg"])
+            if probs:
+                # outside the fragment where rdflib's binding push-down is exact (C04's known findings K1 / K2 / K4, decided
+                # by the Python mirror of RV/C04/Safe.lean on the tree of the same pattern in a QUERY): the model — a model
+                # of the evaluator as it is — is still compared, the specification's verdict on the state is not asked
+                abstain = True
+                for pr in sorted(probs):
+                    info["walg_unsafe_" + pr.split(":")[0]] = info.get("walg_unsafe_" + pr.split(":")[0], 0) + 1
+            else:
+                info["walg_safe"] = info.get("walg_safe", 0) + 1
+    if abstain:
+        info["where_algebra_depends_on_empty_graphs"] = 1
+    same = quads == canon_int(want) or (abstain and not failed and err == "ok")
     if not same:
         A = {tuple(toterm(x, True) for x in q) for q in set(raw)}
         B = {tuple(toterm(x, True) for x in q) for q in want}
@@ -889,6 +1233,9 @@ def run_impl(case):
                 stats[key] = stats.get(key, 0) + 1
                 if any(kind(q[3]) == "v" for q in o[f]):
                     stats["graph_var_in_several_blocks"] = stats.get("graph_var_in_several_blocks", 0) + 1
+        if o["k"] == "modify" and o.get("walg"):
+            for f in sorted(walg_features(o["walg"])):
+                stats["walg_" + f] = stats.get("walg_" + f, 0) + 1
         if o["k"] == "modify":
             if o.get("wmode"):
                 stats["modify_where_" + o["wmode"][0]] = stats.get("modify_where_" + o["wmode"][0], 0) + 1
@@ -947,6 +1294,15 @@ def op_line(op, sp=ABS):
         return f"{k} {_parts_tokens(op['q'], op.get('split'), op.get('eb'), sp)}"
     if k == "deletewhere":
         return f"{k} {len(op['q'])} {_qs(op['q'], sp)}".strip()
+    if k == "modify" and op.get("walg"):
+        d, i = op.get("del"), op.get("ins")
+        return " ".join(str(x) for x in [
+            "modifyalg", sp.m(op.get("with") or 0),
+            *([0] if d is None else [_plus1(_parts_tokens(d, op.get("split"), op.get("eb"), sp))]),
+            *([0] if i is None else [_plus1(_parts_tokens(i, op.get("split"), op.get("eb"), sp))]),
+            len(op.get("using", [])), *[sp.m(g) for g in op.get("using", [])],
+            len(op.get("named", [])), *[sp.m(g) for g in op.get("named", [])],
+            "|", "@ALG@"] if x != "")
     if k == "modify":
         d, i = op.get("del"), op.get("ins")
         f = op.get("filter")
@@ -975,10 +1331,19 @@ def model_lines(case):
             lines.append(f"reg {g}")
     rendered, ids = render(case)
     lines += table_lines(ids)
+    algs = {}
+    if any(op.get("walg") for op in case["ops"]):
+        # the WHERE clause of a full-algebra operation reaches the model as the tree rdflib ITSELF built for this
+        # request (translateUpdate -> translateUpdate1: translated, simplified, annotated), not as the written pattern
+        # (the operation is translated on its own, templates left out — translateUpdate1 treats every operation
+        # separately and the WHERE clause is written with absolute IRIs — because rdflib's parser needs ~40 ms per request)
+        for k, op in enumerate(case["ops"]):
+            if op.get("walg"):
+                algs[k] = update_where_tree(walg_group_text(op["walg"]))
     for _run in range(case.get("runs", 1)):
-        for _d, _body, dl, ol in rendered:
+        for k, (_d, _body, dl, ol) in enumerate(rendered):
             lines += dl
-            lines.append(ol)
+            lines.append(ol.replace("@ALG@", algs.get(k, "( none )")))
     lines += ["err", "quads", "known"]
     return lines
 
@@ -1028,6 +1393,11 @@ def _gen_case(rng, tier, i):
     obj = [1, 2, 3, 20, 21, 22, 23, 24, 31, 90] if rng.random() < 0.6 else [1, 2, 3]
     if 8 in subj:
         obj = obj + [7, 8]
+    # a third of the requests have DELETE/INSERT operations whose WHERE clause is a pattern of the full algebra (OPTIONAL,
+    # MINUS, UNION, FILTER, BIND, VALUES, sub-select, GRAPH, EXISTS): literals are then the typed ones of LIT
+    algcase = rng.random() < 0.2
+    if algcase:
+        obj = [x for x in obj if x != 23] + ([21, 24, 25, 26, 27] if len(obj) > 5 else [])
 
     def triple():
         return [rng.choice(subj), rng.choice(pred), rng.choice(obj)]
@@ -1201,7 +1571,62 @@ def _gen_case(rng, tier, i):
                                    (src or 90, DFLT_IRI)])
         return {"k": rng.choice(["add", "move", "copy"]), "silent": s, "src": src, "dst": dst}
 
-    def gen_modify(gs):
+    def gen_modify_alg(gs):
+        w, using, named = None, [], []
+        likely = (filled + filled + anyg) if filled else anyg
+        if not single:
+            if rng.random() < 0.2:
+                w = rng.choice(likely)
+            if rng.random() < 0.15:
+                using = list(dict.fromkeys(rng.choice(likely) for _ in range(rng.randint(1, 2))))
+            if rng.random() < 0.1:
+                named = list(dict.fromkeys(rng.choice(likely) for _ in range(rng.randint(1, 2))))
+        # what the pattern will (mostly) be matched against — an aid for drawing satisfiable patterns, nothing more
+        eff = union and api in ("cg", "cgi", "dsu")
+        if using or named:
+            dfl, nm = [q[:3] for q in init if q[3] in using], named
+        else:
+            dfl = [q[:3] for q in init if (q[3] == w if w else (q[3] == 0 or eff))]
+            nm = [] if single else present
+        dfl = dfl or [[1, 4, 2]]
+        ds = {"default": [[list(sg_term(x)) for x in t] for t in dfl],
+              "named": [[list(sg_term(g)), [[list(sg_term(x)) for x in q[:3]] for q in init if q[3] == g]] for g in nm],
+              "union": False}
+        feats = {"opt", "minus", "union", "values", "bind", "filter", "subsel", "group", "exists"} | (set() if single else {"graph"})
+        walg = None
+        for _ in range(25):
+            q = sg.gen_query(rng, ds, depth=rng.choice([1, 2, 2, 3]), forms=("select",), features=feats)
+            vs = sg.all_vars_group(q["where"])
+            if vs and max(vs) > 9:
+                continue
+            try:
+                cand = walg_from_sg(q["where"])
+                walg_group_text(cand)
+            except (KeyError, ValueError):
+                continue
+            walg = cand
+            break
+        if walg is None:
+            return gen_modify(gs, False)
+        wvars = sorted(40 + v for v in sg.in_scope(q["where"]))
+        if wvars and rng.random() < 0.25 and max(sg.all_vars_group(q["where"])) <= 7:
+            # BIND of a comparison that is an ERROR for IRIs / blank nodes / unbound (the solution is kept, ?v48 unbound)
+            # and a boolean for literals
+            walg[1].append(["bind", ["cmp", rng.choice(["lt", "gt", "le"]), ["var", rng.choice(wvars)],
+                                     ["const", rng.choice([21, 24, 25])]], 48])
+            wvars = wvars + [48]
+        tg = [0] if single else ([0, 0, 0] + anyg + (wvars[:1] if rng.random() < 0.15 else []))
+        c, d, i = rng.random(), None, None
+        if c < 0.6:
+            d = [[x if kind(x) not in "tb" else 1 for x in t] for t in template(wvars, rng.randint(1, 2), tg, False)]
+        if c > 0.25 or d is None:
+            i = template(wvars, rng.randint(1, 3), tg, rng.random() < 0.4)
+        return {"k": "modify", "with": w, "del": d, "ins": i, "using": using, "named": named, "where": [],
+                "filter": None, "split": False, "wmode": None, "walg": walg}
+
+    def gen_modify(gs, alg_ok=True):
+        if algcase and alg_ok and rng.random() < 0.7:
+            return gen_modify_alg(gs)
         w = None
         using, named = [], []
         likely = (filled + filled + anyg) if filled else anyg
@@ -1387,6 +1812,20 @@ def _shrink(case):
             if lst and (len(lst) > 1 or f == "where"):
                 for j in range(len(lst)):
                     yield {**case, "ops": ops[:i] + [{**op, f: lst[:j] + lst[j + 1:]}] + ops[i + 1:]}
+        if op["k"] == "modify" and op.get("walg"):
+            try:
+                smaller = list(sg.shrink_query({"form": "select", "proj": None, "where": walg_to_sg(op["walg"]),
+                                                "template": []}))
+            except Exception:  # noqa: BLE001
+                smaller = []
+            for q2 in smaller:
+                try:
+                    w2 = walg_from_sg(q2["where"], 0)
+                    walg_group_text(w2)
+                except (KeyError, ValueError):
+                    continue
+                if w2 != op["walg"] and not walg_problems(w2):
+                    yield {**case, "ops": ops[:i] + [{**op, "walg": w2}] + ops[i + 1:]}
         if op["k"] == "modify":
             for f, v in (("with", None), ("filter", None), ("using", []), ("named", []), ("wmode", None)):
                 if op.get(f):
@@ -1444,6 +1883,8 @@ MATCHERS = {
     and any(kind(q[3]) == "v" for q in c["ops"][0]["q"]),
     "using_dataset": lambda c, r: _one(c, "modify") and _state(r)
     and bool(c["ops"][0].get("using") or c["ops"][0].get("named")),
+    "where_unannotated": lambda c, r: _one(c, "modify") and bool(c["ops"][0].get("walg")) and _state(r)
+    and bool({"opt", "minus", "exists"} & walg_features(c["ops"][0]["walg"])),
     "plain_graph_drop": lambda c, r: c["api"] == "graph" and len(c["ops"]) == 1
     and c["ops"][0]["k"] in ("clear", "drop") and bool(r["viol"]),
 }
